@@ -71,3 +71,133 @@ Definition checkL_cxnan (tol : Q) := checkL (clO (clC tol)) (fun z : option (Q *
 (* which regime the model selects (reported in the evidence by the harness) *)
 Definition regime_tag (fl bdt : bool) (size : Z) (flags : list (bool * bool)) : nat :=
   match regime_of size fl (blas_applicable bdt size flags) with Direct => 0 | Fallback => 1 | Blas => 2 end%nat.
+
+(* ---- space-level arithmetic (nested product spaces, discretized spaces, operators) ---- *)
+From Verif Require Import C01.ModelSpace.
+
+Inductive bkind := BAdd | BSub | BMul | BDiv | BRAdd | BRSub | BRMul | BRDiv.
+
+Inductive wop (T : Type) :=
+| WLincomb1 (a : T) (x1 out : elem)
+| WLincomb2 (a : T) (x1 : elem) (b : T) (x2 out : elem)
+| WMultiply (x1 x2 out : elem) | WDivide (x1 x2 out : elem)
+| WAssign (self other : elem) | WCopy (self tmp : elem) | WSetZero (self : elem)
+| WIAdd (self other : elem) | WAdd (self other tmp : elem)
+| WIAddS (self : elem) (c : T) (tmp : elem) | WAddS (self : elem) (c : T) (tmp : elem)
+| WISub (self other : elem) | WSub (self other tmp : elem)
+| WISubS (self : elem) (c : T) (tmp : elem) | WSubS (self : elem) (c : T) (tmp : elem)
+| WRSub (self other tmp : elem) | WRSubS (self : elem) (c : T) (tmp : elem)
+| WIMulS (self : elem) (c : T) | WMulS (self : elem) (c : T) (tmp : elem)
+| WIMul (self other : elem) | WMul (self other tmp : elem)
+| WITrueDivS (self : elem) (c : T) | WTrueDivS (self : elem) (c : T) (tmp : elem)
+| WITrueDiv (self other : elem) | WTrueDiv (self other tmp : elem)
+| WRTrueDiv (self other tmp : elem) | WRTrueDivS (self : elem) (c : T) (tmp : elem)
+| WNeg (self tmp : elem) | WPos (self tmp : elem)
+| WCopyLeaf (self tmp : nat)
+| WIPow (generic_copy : bool) (self : elem) (p : nat) (tmp one_tmp : elem)
+| WBcast (inplace : bool) (k : bkind) (sp0 : space) (parts : elems) (other : elem) (tmps : elems).
+Arguments WLincomb1 {T}. Arguments WLincomb2 {T}. Arguments WMultiply {T}. Arguments WDivide {T}.
+Arguments WAssign {T}. Arguments WCopy {T}. Arguments WSetZero {T}.
+Arguments WIAdd {T}. Arguments WAdd {T}. Arguments WIAddS {T}. Arguments WAddS {T}.
+Arguments WISub {T}. Arguments WSub {T}. Arguments WISubS {T}. Arguments WSubS {T}.
+Arguments WRSub {T}. Arguments WRSubS {T}. Arguments WIMulS {T}. Arguments WMulS {T}.
+Arguments WIMul {T}. Arguments WMul {T}. Arguments WITrueDivS {T}. Arguments WTrueDivS {T}.
+Arguments WITrueDiv {T}. Arguments WTrueDiv {T}. Arguments WRTrueDiv {T}. Arguments WRTrueDivS {T}.
+Arguments WNeg {T}. Arguments WPos {T}. Arguments WCopyLeaf {T}. Arguments WIPow {T}. Arguments WBcast {T}.
+
+Record caseW (T : Type) := mkW {
+  w_sp : space;
+  w_bdt : list bool;                 (* per buffer id: dtype in _BLAS_DTYPES *)
+  w_flags : list (bool * bool);      (* per buffer id: (c_contiguous, f_contiguous) *)
+  w_op : wop T;
+  w_bufs : list (list T);            (* initial contents, by id (temporaries: arbitrary, right length) *)
+  w_cmp : list nat;                  (* ids whose final contents are compared *)
+  w_res : list (list T);             (* final contents by id (implementation) *)
+  w_err : nat                        (* 0 = returned, 1 = raised a casting error *)
+}.
+Arguments mkW {T}.
+Arguments w_sp {T}. Arguments w_bdt {T}. Arguments w_flags {T}. Arguments w_op {T}.
+Arguments w_bufs {T}. Arguments w_cmp {T}. Arguments w_res {T}. Arguments w_err {T}.
+
+Section RunW.
+Context {T : Type} `{Num T}.
+Variable lay : nat -> nat -> nat -> bool.
+Variable icast : T -> T.
+
+Definition leaf_id (e : elem) : nat := match e with Leaf i => i | Node _ => 0%nat end.
+
+Definition run_b (inplace : bool) (k : bkind) (sp0 : space) (other : elem) (x t : elem) : store T -> outcome T :=
+  if inplace then
+    match k with
+    | BAdd | BRAdd => w_iadd lay icast sp0 x other
+    | BSub | BRSub => w_isub lay icast sp0 x other
+    | BMul | BRMul => w_imul sp0 x other
+    | BDiv | BRDiv => w_itruediv sp0 x other
+    end
+  else
+    match k with
+    | BAdd | BRAdd => w_add lay icast sp0 x other t
+    | BSub => w_sub lay icast sp0 x other t
+    | BRSub => w_rsub lay icast sp0 x other t
+    | BMul | BRMul => w_mul sp0 x other t
+    | BDiv => w_truediv sp0 x other t
+    | BRDiv => w_rtruediv sp0 x other t
+    end.
+
+Definition run_wop (sp : space) (o : wop T) : store T -> outcome T :=
+  match o with
+  | WLincomb1 a x1 out => w_lincomb1 lay icast sp a x1 out
+  | WLincomb2 a x1 b x2 out => w_lincomb2 lay icast sp a x1 b x2 out
+  | WMultiply x1 x2 out => ps_multiply sp x1 x2 out
+  | WDivide x1 x2 out => ps_divide sp x1 x2 out
+  | WAssign self other => w_assign lay icast sp self other
+  | WCopy self tmp => w_copy lay icast sp self tmp
+  | WSetZero self => w_set_zero lay icast sp self
+  | WIAdd self other => w_iadd lay icast sp self other
+  | WAdd self other tmp => w_add lay icast sp self other tmp
+  | WIAddS self c tmp => w_iadd_scalar lay icast sp self c tmp
+  | WAddS self c tmp => w_add_scalar lay icast sp self c tmp
+  | WISub self other => w_isub lay icast sp self other
+  | WSub self other tmp => w_sub lay icast sp self other tmp
+  | WISubS self c tmp => w_isub_scalar lay icast sp self c tmp
+  | WSubS self c tmp => w_sub_scalar lay icast sp self c tmp
+  | WRSub self other tmp => w_rsub lay icast sp self other tmp
+  | WRSubS self c tmp => w_rsub_scalar lay icast sp self c tmp
+  | WIMulS self c => w_imul_scalar lay icast sp self c
+  | WMulS self c tmp => w_mul_scalar lay icast sp self c tmp
+  | WIMul self other => w_imul sp self other
+  | WMul self other tmp => w_mul sp self other tmp
+  | WITrueDivS self c => w_itruediv_scalar lay icast sp self c
+  | WTrueDivS self c tmp => w_truediv_scalar lay icast sp self c tmp
+  | WITrueDiv self other => w_itruediv sp self other
+  | WTrueDiv self other tmp => w_truediv sp self other tmp
+  | WRTrueDiv self other tmp => w_rtruediv sp self other tmp
+  | WRTrueDivS self c tmp => w_rtruediv_scalar lay icast sp self c tmp
+  | WNeg self tmp => w_neg lay icast sp self tmp
+  | WPos self tmp => w_pos lay icast sp self tmp
+  | WCopyLeaf self tmp => w_copy_leaf self tmp
+  | WIPow g self p tmp one_tmp =>
+      w_ipow lay icast (S p)
+        (if g then w_copy lay icast sp else fun x t => w_copy_leaf (leaf_id x) (leaf_id t))
+        sp self p tmp one_tmp
+  | WBcast inplace k sp0 parts other tmps =>
+      if inplace then bcast1 (fun x => run_b true k sp0 other x x) parts
+      else bcast2 (run_b false k sp0 other) parts tmps
+  end.
+End RunW.
+
+Definition checkW {T} `{Num T} (cl : T -> T -> bool) (icast : T -> T) (k : caseW T) : bool :=
+  let s0 := store_of (w_bufs k) in
+  let lay := fun i1 i2 io =>
+    blas_applicable (nth i1 (w_bdt k) false) 0
+      [nth i1 (w_flags k) (false, false); nth i2 (w_flags k) (false, false); nth io (w_flags k) (false, false)] in
+  match run_wop lay icast (w_sp k) (w_op k) s0, w_err k with
+  | Ok s1, O => forallb (fun i => all2 cl (nth i (w_res k) []) (s1 i)) (w_cmp k)
+  | CastErr, S O => true
+  | _, _ => false
+  end.
+
+Definition checkW_real (tol : Q) := checkW (clQ tol) Qtrunc_cast.
+Definition checkW_cx (tol : Q) := checkW (clC tol) (fun z : Q * Q => z).
+Definition checkW_nan (tol : Q) := checkW (clO (clQ tol)) (fun z : option Q => z).
+Definition checkW_cxnan (tol : Q) := checkW (clO (clC tol)) (fun z : option (Q * Q) => z).
